@@ -271,6 +271,46 @@ def x_decompress_guards():
             nat_defs("decompressGuard", vals))
 
 
+def x_startup_constants():
+    """Values the driver advertises in STARTUP: protocol version string, default driver name (request/options.rs) and
+    the driver version (`env!("CARGO_PKG_VERSION")` of the scylla-cql crate => its Cargo.toml), extension keys."""
+    rel = "scylla-cql/src/frame/request/options.rs"
+    src = strip_comments(read(rel))
+    res = []
+
+    def bytes_def(name, text):
+        bs = ", ".join("0x%02X" % b for b in text.encode("ascii"))
+        return (name, "List UInt8", "[%s]  -- \"%s\"" % (bs, text))
+
+    for const, lean in [("DEFAULT_CQL_PROTOCOL_VERSION", "startup_CQL_VERSION_value"),
+                        ("DEFAULT_DRIVER_NAME", "startup_DRIVER_NAME_value"),
+                        ("CQL_VERSION", "startup_key_CQL_VERSION"), ("DRIVER_NAME", "startup_key_DRIVER_NAME"),
+                        ("DRIVER_VERSION", "startup_key_DRIVER_VERSION"), ("COMPRESSION", "startup_key_COMPRESSION")]:
+        v = one(rel, r"pub\s+const\s+%s\s*:\s*&str\s*=\s*\"([ -~]*?)\"\s*;" % const, "const %s" % const, src)
+        res.append(bytes_def(lean, v))
+    one(rel, r"pub\s+const\s+DEFAULT_DRIVER_VERSION\s*:\s*&str\s*=\s*env!\(\"CARGO_PKG_VERSION\"\)\s*;",
+        "DEFAULT_DRIVER_VERSION = env!(CARGO_PKG_VERSION)", src)
+    cargo = "scylla-cql/Cargo.toml"
+    pkg = read(cargo)
+    m = re.search(r"^\[package\](.*?)(?=^\[)", pkg, flags=re.S | re.M)
+    if not m:
+        raise ExtractError("%s: no [package] section" % cargo)
+    ver = re.findall(r"^version\s*=\s*\"([0-9A-Za-z.+-]+)\"\s*$", m.group(1), flags=re.M)
+    if len(ver) != 1:
+        raise ExtractError("%s: expected exactly one version in [package]" % cargo)
+    res.append(bytes_def("startup_DRIVER_VERSION_value", ver[0]))
+    rel2 = "scylla-cql-core/src/frame/protocol_features.rs"
+    src2 = strip_comments(read(rel2))
+    for const, lean in [("RATE_LIMIT_ERROR_EXTENSION", "startup_key_RATE_LIMIT_ERROR"),
+                        ("SCYLLA_LWT_ADD_METADATA_MARK_EXTENSION", "startup_key_LWT_MARK"),
+                        ("LWT_OPTIMIZATION_META_BIT_MASK_KEY", "startup_LWT_MASK_field"),
+                        ("TABLETS_ROUTING_V1_KEY", "startup_key_TABLETS_ROUTING_V1"),
+                        ("SCYLLA_USE_METADATA_ID_KEY", "startup_key_USE_METADATA_ID")]:
+        v = one(rel2, r"const\s+%s\s*:\s*&str\s*=\s*\"([ -~]*?)\"\s*;" % const, "const %s" % const, src2)
+        res.append(bytes_def(lean, v))
+    return ("STARTUP: advertised values and option keys", [rel, cargo, rel2], res)
+
+
 EXTRACTORS = [
     x_request_opcodes,
     x_response_opcodes,
@@ -282,6 +322,7 @@ EXTRACTORS = [
     x_value_markers,
     x_event_types,
     x_decompress_guards,
+    x_startup_constants,
 ]
 
 
